@@ -1262,6 +1262,74 @@ def extra_same_object_during_inspect():
 
 
 
+def extra_cache_hit_across_gc():
+    """a proxy kept alive only by a reference cycle dies when the cyclic GC happens to run; forced here right after the
+    1st / 2nd membership test `_unbox` makes on its proxy cache (what an allocation-triggered collection does at an
+    arbitrary bytecode).  The object arriving again must be received all the same, and once every proxy is gone and
+    the notices are delivered the owner's table is empty.  Manual delivery, builtin objects.  Real code only."""
+    import simnet
+    from rpyc.core import brine
+    from rpyc.lib.colls import WeakValueDict
+
+    class CollectAfterMembership(WeakValueDict):
+        __slots__ = ("armed",)
+
+        def __contains__(self, key):
+            found = WeakValueDict.__contains__(self, key)
+            if found and getattr(self, "armed", 0):
+                self.armed -= 1
+                if self.armed == 0:
+                    gc.collect()
+            return found
+    errs = []
+    net = simnet.Net(manual=True)
+    with net.installed():
+        ca, cb = net.connect_pair(compress=False)
+        was = gc.isenabled()
+        gc.disable()
+        try:
+            cache = CollectAfterMembership()
+            cb._proxy_cache = cache
+            obj = [1, 2]
+
+            def receive():
+                return cb._unbox(brine.load(brine.dump(ca._box(obj))))
+            p = receive()
+            cycle = [p]
+            cycle.append(cycle)
+            del p, cycle
+            for nth in (1, 2):
+                cache.armed = nth
+                try:
+                    p = receive()
+                    cycle = [p]
+                    cycle.append(cycle)
+                    del p, cycle
+                except Exception as ex:  # noqa
+                    errs.append("an object arriving again while the cyclic GC collects its old proxy (right after membership "
+                                "test %d of the cache) is not received: %s out of _unbox" % (nth, type(ex).__name__))
+            cache.armed = 0
+            gc.collect()
+            for _ in range(8):
+                ca.poll()
+                cb.poll()
+            left = [v[1] for k, v in ca._local_objects._dict.items() if k[0] == "builtins.list"]
+            if left:
+                errs.append("after every proxy was collected and all notices delivered the owner's table still holds the "
+                            "object (stored count %r)" % left)
+        except Exception as ex:  # noqa
+            errs.append("the cache-hit-across-GC scenario raised %s: %s" % (type(ex).__name__.split(".")[-1], str(ex)[:100]))
+        finally:
+            if was:
+                gc.enable()
+            for c in (ca, cb):
+                try:
+                    c.close()
+                except Exception:  # noqa
+                    pass
+    return errs
+
+
 class ZeroInt(int):
     pass
 
@@ -1341,7 +1409,8 @@ def _bounded_extra(name, fn):
 
 def extras():
     table = {"dynclass-baton": extra_dynclass_baton, "release-overtakes-reference": extra_release_overtakes,
-             "falsy-objects-baton": extra_falsy_baton, "same-object-during-inspect": extra_same_object_during_inspect}
+             "falsy-objects-baton": extra_falsy_baton, "same-object-during-inspect": extra_same_object_during_inspect,
+             "cache-hit-across-gc": extra_cache_hit_across_gc}
     return dict((name, _bounded_extra(name, fn)) for name, fn in table.items())
 
 
